@@ -153,21 +153,26 @@ def emit_test(n, kinds, abi):
         k = kinds[i]
         t.append('  { // a field value that is not representable on the other side must abort')
         t.append('    tn<S*> ps; ps.assign_raw_pointer(*g_sb, reinterpret_cast<S*>(g_base + 0x200)); GS g; memset(&g, 0, sizeof g); memcpy(g_mem + 0x200, &g, sizeof g);')
-        t.append('    n_eval += 2; n_nontriv += 2;')
         if abi != 'wide':
-            setter = {'l': 't.%s = 0x10000000000L;' % f, 'ul': 't.%s = 0x10000000000UL;' % f, 'la': 't.%s[1] = 0x10000000000L;' % f, 'l2': 't.%s[1][2] = 0x10000000000L;' % f}[k]
-            t.append('    { tn<S> t = *ps; %s' % setter)
-            t.append('      int c1 = in_child([&] { *ps = t; });')
-            t.append('      if (c1 != CH_ABORT) R.bad("store", %s::n, "unrepresentable-not-aborted", "field %s = 2^40 does not fit the guest type; store ended with code " + std::to_string(c1), "unrep");' % (K[i], f))
-            t.append('      int c2 = in_child([&] { g_sb->invoke_sandbox_function(takeret_%s, t); });' % S)
-            t.append('      if (c2 != CH_ABORT) R.bad("by-value-argument", %s::n, "unrepresentable-not-aborted", "field %s = 2^40 does not fit the guest type; call ended with code " + std::to_string(c2), "unrep"); }' % (K[i], f))
+            # above the guest maximum, and (signed kinds) below the guest minimum: both bounds of the narrowing conversion
+            vals = [('2^40', '0x10000000000')] + ([('-2^40', '-0x10000000000'), ('INT32_MIN-1', '-2147483649')] if k != 'ul' else [('UINT32_MAX+1', '0x100000000')])
+            for vn, vv in vals:
+                suf = 'UL' if k == 'ul' else 'L'
+                setter = {'l': 't.%s = %s%s;' % (f, vv, suf), 'ul': 't.%s = %s%s;' % (f, vv, suf), 'la': 't.%s[1] = %s%s;' % (f, vv, suf), 'l2': 't.%s[1][2] = %s%s;' % (f, vv, suf)}[k]
+                t.append('    n_eval += 2; n_nontriv += 2;')
+                t.append('    { tn<S> t = *ps; %s' % setter)
+                t.append('      int c1 = in_child([&] { *ps = t; });')
+                t.append('      if (c1 != CH_ABORT) R.bad("store", %s::n, "unrepresentable-not-aborted", "field %s = %s does not fit the guest type; store ended with code " + std::to_string(c1), "unrep");' % (K[i], f, vn))
+                t.append('      int c2 = in_child([&] { g_sb->invoke_sandbox_function(takeret_%s, t); });' % S)
+                t.append('      if (c2 != CH_ABORT) R.bad("by-value-argument", %s::n, "unrepresentable-not-aborted", "field %s = %s does not fit the guest type; call ended with code " + std::to_string(c2), "unrep"); }' % (K[i], f, vn))
         else:
-            big = {'s': '70000', 'i': '0x10000000000LL'}[k]
-            t.append('    { g_%s_t big = %s; memcpy(g_mem + 0x200 + offsetof(GS, %s), &big, sizeof big);' % ({'s': 'short', 'i': 'int'}[k], big, f))
-            t.append('      int c1 = in_child([&] { tn<S> t = *ps; (void)t; });')
-            t.append('      if (c1 != CH_ABORT) R.bad("load", %s::n, "unrepresentable-not-aborted", "guest field %s holds a value that does not fit the application type; load ended with code " + std::to_string(c1), "unrep");' % (K[i], f))
-            t.append('      int c2 = in_child([&] { auto v = ps->UNSAFE_unverified(); (void)v; });')
-            t.append('      if (c2 != CH_ABORT) R.bad("load-unverified", %s::n, "unrepresentable-not-aborted", "guest field %s holds a value that does not fit the application type; UNSAFE_unverified ended with code " + std::to_string(c2), "unrep"); }' % (K[i], f))
+            for big in {'s': ['70000', '-70000', '-32769'], 'i': ['0x10000000000LL', '-0x10000000000LL', '-2147483649LL']}[k]:
+                t.append('    n_eval += 2; n_nontriv += 2;')
+                t.append('    { g_%s_t big = %s; memcpy(g_mem + 0x200 + offsetof(GS, %s), &big, sizeof big);' % ({'s': 'short', 'i': 'int'}[k], big, f))
+                t.append('      int c1 = in_child([&] { tn<S> t = *ps; (void)t; });')
+                t.append('      if (c1 != CH_ABORT) R.bad("load", %s::n, "unrepresentable-not-aborted", "guest field %s holds %s, which does not fit the application type; load ended with code " + std::to_string(c1), "unrep");' % (K[i], f, big))
+                t.append('      int c2 = in_child([&] { auto v = ps->UNSAFE_unverified(); (void)v; });')
+                t.append('      if (c2 != CH_ABORT) R.bad("load-unverified", %s::n, "unrepresentable-not-aborted", "guest field %s holds %s, which does not fit the application type; UNSAFE_unverified ended with code " + std::to_string(c2), "unrep"); }' % (K[i], f, big))
         t.append('  }')
     t.append('}')
     return '\n'.join(t)
